@@ -215,7 +215,7 @@ def make_md(MW, hist):
     return md
 
 
-def check_password(pp, md, hist, pw, last):
+def check_password(pp, md, hist, pw, last, again=False):
     """returns list of (clause, msg)"""
     parser = pp.PCFGPasswordParser(md)
     try:
@@ -239,6 +239,28 @@ def check_password(pp, md, hist, pw, last):
             if g != want:
                 res.append(('counters', 'counter %s after one parse is %r, tally of the sections %r is %r' % (k, dict(g), sections, dict(want))))
                 break
+        if not res and again:
+            # E-hist over the parser object: the same password once more on the same parser (the next line of a sorted list, the next copy of a counted
+            # line): the same sections, and every counter doubled
+            first = list(sections)
+            try:
+                parser.parse(pw)
+            except Exception as e:
+                return [('repeat', 'the second parse(%r) on one parser raised %r' % (pw, e))], sections
+            if last[1] != first:
+                res.append(('repeat', 'the second parse on one parser gives sections %r, the first one gave %r' % (last[1], first)))
+            else:
+                for k, want in t.items():
+                    g = got[k]
+                    if k in 'ACDOK':
+                        g = {n: Counter(c) for n, c in g.items() if c}
+                        want = {n: Counter({a: 2 * b for a, b in c.items()}) for n, c in want.items()}
+                    else:
+                        g = Counter({a: b for a, b in g.items() if b})
+                        want = Counter({a: 2 * b for a, b in want.items()})
+                    if g != want:
+                        res.append(('repeat', 'counter %s after two parses of the same password on one parser is %r, twice the tally of the sections %r is %r' % (k, dict(g), first, dict(want))))
+                        break
     return res, sections
 
 
@@ -267,7 +289,7 @@ def run_shard(shard, tier, acc):
                 acc.evals += 1
                 last[0] = last[1] = None
                 with contextlib.redirect_stdout(sink):
-                    res, sections = check_password(pp, mds[hi], hist, pw, last)
+                    res, sections = check_password(pp, mds[hi], hist, pw, last, again=(hi == 1))
                 sink.seek(0)
                 sink.truncate()
                 if sections and (len(sections) >= 2 or sections[0][1][0] != 'O'):
